@@ -198,18 +198,23 @@ def refute_function(args):
         from .verify import Engine
         src = Source(repo)
         k = int(os.environ.get("PYVC_SCOPE", "9" if tier == "quick" else "11"))
-        budget = 15000 if tier == "quick" else 60000
+        budget = 8000 if tier == "quick" else 60000
         S2 = Sorts(scope=k)
         eng2 = Engine(src, load_registry(sidecars), S2, opts={"nosplit": True})
+        t_start = time.time()
+        wall = float(os.environ.get("PYVC_REFUTE_WALL", "100" if tier == "quick" else "900"))
         obs2 = eng2.verify(key)
         for base in bases:
             out[base] = []
             tried = 0
+            if time.time() - t_start > wall:
+                out.setdefault("__error__", f"refutation stopped after {wall}s (wall budget)")
+                break
             for ob2 in obs2:
                 if ob2.base != base or z3.is_true(ob2.goal) or ob2.kind == "must_fail":
                     continue
                 tried += 1
-                if tried > 12 or len(out[base]) >= 4:
+                if tried > 6 or len(out[base]) >= 3 or time.time() - t_start > wall:
                     break
                 r, m, info = refute.find_model(ob2.hyps, ob2.goal, S2.ref_consts, timeout_ms=budget)
                 if r == "sat":
